@@ -198,7 +198,9 @@ def _subexprs_by_nest(parents: list, node) -> dict[str, list]:
         return {getattr(node, "upper_name", ""): parents}
     if not isinstance(node, ops.Op):
         return {}
-    sources = [getattr(node, "lhs", None), getattr(node, "rhs", None)]
+    # All the operands: the two sides of a binary operator, the operand of a unary operator
+    # and the arguments of a function call
+    sources = list(node.operands)
     result: dict[str, list] = {}
     for source in sources:
         child = _subexprs_by_nest(parents, source)
